@@ -1,5 +1,13 @@
 import Driver.F64Drv
 import Driver.RunDrv
+import Driver.LoadDrv
+import Driver.ExprSynDrv
+import Driver.LineLexDrv
+import Driver.BridgeDrv
+import Driver.CmdArgsDrv
+import Driver.SeedDrv
+import Driver.ContainersDrv
+import Driver.TokensDrv
 /-! `ysgo-model`: reads case lines on stdin, prints the model's observation lines (id, index, observation) -/
 open Ysgo Ysgo.Drv
 
@@ -7,6 +15,14 @@ def dispatch (stream : String) (c : S) : List String :=
   match stream with
   | "f64" => f64Case c
   | "run" => runCase c
+  | "load" => loadCase c
+  | "exprsyn" => exprsynCase c
+  | "linelex" => linelexCase c
+  | "bridge" => bridgeCase c
+  | "cmdargs" => cmdargsCase c
+  | "seed" => seedCase c
+  | "containers" => containersCase c
+  | "tokens" => tokensCase c
   | _ => ["UNKNOWN-STREAM"]
 
 partial def loop (h : IO.FS.Stream) (out : IO.FS.Stream) : IO Unit := do
